@@ -216,6 +216,12 @@ func (a CAct) coq(ids map[int]uint64) string {
 		// time passes (a.B milliseconds of the bubble's virtual clock). Nothing depends on time in the model: a tick is the
 		// idempotent environment action "set the write mode to what it is" (a.On is filled in by the rig)
 		return "ASetWriteFail " + coqBool(a.On)
+	case "close":
+		// ClientConn.Close(): on the pinned tree it reports stats.ConnEnd and nothing else - the multiplexer, the calls in
+		// flight and later calls are not affected (the transport is the caller's to close). In the model it is therefore the
+		// same idempotent environment action as a tick. What the spec predicates require after it is unchanged: a later read
+		// failure still has to end every call.
+		return "ASetWriteFail " + coqBool(a.On)
 	}
 	panic("unknown op " + a.Op)
 }
@@ -649,6 +655,8 @@ func (r *clientRig) do(a CAct) {
 		// virtual time: every timer that is due within the interval fires (callers' contexts are manual: no caller
 		// deadline is crossed by a tick; deadlines are explicit "expire" actions)
 		time.Sleep(time.Duration(a.B) * time.Millisecond)
+	case "close":
+		r.cc.Close()
 	default:
 		panic("unknown op " + a.Op)
 	}
@@ -899,7 +907,7 @@ func runClientScenario(t *testing.T, idx int, kind string, sc clientScenario, em
 					sc.Acts[i] = a
 				}
 			}
-			if a.Op == "tick" {
+			if a.Op == "tick" || a.Op == "close" {
 				a.On = rig.wfailOn
 				sc.Acts[i] = a
 			}
